@@ -307,5 +307,22 @@ BinOp(a, b) ==
       free |-> al.free,
       filled |-> <<NaN \in Rng(a2.cells), NaN \in Rng(b2.cells)>>]
 
+
+(* ---------- C08: reductions ---------- *)
+\* red: sequence of (1-based) dimension positions reduced at once, in the listed order; result cells are terms
+\* [fib |-> cells fed to the NumPy function, in fibre order; nan |-> the result is NaN whatever the function].
+\* Fibre order = row-major over the listed dimensions in the listed order.
+Reduce(a, red, skipna) ==
+  LET kept == SelectSeq(Idx(a.dims), LAMBDA i : \A k \in 1..Len(red) : red[k] # i)
+      rshape == [k \in 1..Len(red) |-> Len(a.labs[red[k]])]
+      rc == Coords(rshape)
+      rank(i) == Cardinality({k \in 1..i : k \in Rng(kept)})
+      posin(i) == CHOOSE k \in 1..Len(red) : red[k] = i
+      fibre(c) == [q \in 1..Len(rc) |-> At(a, [i \in 1..NDim(a) |-> IF i \in Rng(kept) THEN c[rank(i)] ELSE rc[q][posin(i)]])]
+      term(c) == LET f == fibre(c) IN
+                 IF skipna THEN [fib |-> SelectSeq(f, LAMBDA x : x # NaN), nan |-> FALSE]
+                 ELSE [fib |-> f, nan |-> \E q \in 1..Len(f) : f[q] = NaN]
+  IN Mk(Gather(a.dims, kept), Gather(a.kinds, kept), Gather(a.labs, kept), Gather(a.aattrs, kept), a.dtype, a.attrs, term)
+
 IsPerm(p, n) == Len(p) = n /\ Rng(p) = 1..n
 =============================================================================
